@@ -492,6 +492,14 @@ Proof.
   intros [H|H]; [left; assumption | right; apply IH; assumption].
 Qed.
 
+Lemma lorder_In j l x : In x (lorder j l) <-> In x l.
+Proof.
+  unfold lorder. set (n := Nat.modulo j (length l)).
+  assert (H : In x (skipn n l ++ firstn n l) <-> In x l).
+  { rewrite in_app_iff. rewrite <- (firstn_skipn n l) at 3. rewrite in_app_iff. tauto. }
+  destruct (Nat.odd j); [rewrite <- in_rev|]; exact H.
+Qed.
+
 Lemma att_list_facts fnfail sb wl :
   list_inv sb wl ->
   list_inv sb (fst (att_list fnfail wl)) /\
@@ -501,7 +509,8 @@ Lemma att_list_facts fnfail sb wl :
 Proof.
   destruct wl as [[s tr] listed]. unfold list_inv, wstore. cbn [fst snd]. intros (Hs & Hn & Hsub).
   unfold att_list. destruct (pop (s_script s)) as [f sc].
-  set (ks := keys (s_store s)).
+  set (ks := lorder (length sc) (keys (s_store s))).
+  assert (Hks : forall x, In x ks <-> In x (keys (s_store s))) by (intros x; apply lorder_In).
   assert (Hgen : forall toemit (e : option ecl), (forall x, In x toemit -> In x ks) ->
     let '(listed', ab) := emit fnfail listed toemit in
     let R := (if ab then (((with_store s (s_store s) sc, (IList, 0%N, IFn, false) :: tr), listed'), AFn)
@@ -516,14 +525,14 @@ Proof.
   { intros toemit e Hte. destruct (emit_spec fnfail toemit listed Hn) as (A & B & C & D).
     destruct (emit fnfail listed toemit) as [listed' ab]. cbn [fst snd] in *.
     assert (Hsub' : forall x, In x listed' -> In x (keys sb)).
-    { intros x Hx. destruct (B x Hx) as [H|H]; [apply Hsub; assumption | subst sb; apply Hte; assumption]. }
+    { intros x Hx. destruct (B x Hx) as [H|H]; [apply Hsub; assumption | subst sb; apply Hks, Hte; assumption]. }
     destruct ab; [|destruct e as [e|]]; cbn [fst snd with_store s_store out_of];
       (split; [auto|]); (split; [intros H; try discriminate H; auto|]); (split; [discriminate|]);
       (match goal with |- projW _ (_, ?cc :: _) = _ => apply (projW_push_same IList _ _ cc); reflexivity end). }
   destruct f as [|e|k e|e].
   - specialize (Hgen ks None (fun x H => H)). destruct (emit fnfail listed ks) as [l' ab].
     destruct Hgen as (A & B & C & D). split; [exact A|]. split; [|split; [exact C | exact D]].
-    subst sb. exact B.
+    subst sb. intros H x Hx. apply B; [exact H | apply Hks; exact Hx].
   - specialize (Hgen [] (Some e) (fun x H => match H with end)). cbn [emit] in Hgen |- *.
     destruct Hgen as (A & B & C & D). split; [exact A|]. split; [discriminate|]. split; [exact C | exact D].
   - specialize (Hgen (firstn k ks) (Some e) (fun x H => firstn_In x k ks H)).
@@ -1224,4 +1233,49 @@ Example c35_nonvacuous_live :
   o_res (snd (run_op_c (mkcfg false false) s (mkreq (OLoad 1%N false 2 1) 1 false, true))) = RCtx /\
   s_breaker (fst (run_op_c (mkcfg false false) s (mkreq (OLoad 1%N false 2 1) 1 false, true))) = [] /\
   s_breaker (fst (run_op (mkcfg false false) s (mkreq (OLoad 1%N false 2 1) 1 false))) = [1%N].
+Proof. vm_compute. repeat split. Qed.
+
+(* ---------- List: de-duplication by NAME makes the result independent of the per-attempt order ---------- *)
+(* Whatever the attempts list — any orders, any prefixes, files appearing in some attempts only — as long
+   as every listed name is one of [keys]: the names handed to fn are duplicate-free and among [keys]; and if
+   some attempt (e.g. the last, successful one) listed all of [keys], every key was handed to fn.  This is
+   what remembering NAMES gives; remembering a position in the listing does not. *)
+Definition emit_all (attempts : list (list N)) : list N :=
+  fold_left (fun acc l => fst (emit 0 acc l)) attempts [].
+
+Theorem emit_seq_sound (keys0 : list N) : forall attempts,
+  (forall l, In l attempts -> forall x, In x l -> In x keys0) ->
+  NoDup (emit_all attempts) /\
+  (forall x, In x (emit_all attempts) -> In x keys0) /\
+  (forall l, In l attempts -> forall x, In x l -> In x (emit_all attempts)).
+Proof.
+  unfold emit_all.
+  assert (Hgen : forall attempts acc, NoDup acc -> (forall x, In x acc -> In x keys0) ->
+            (forall l, In l attempts -> forall x, In x l -> In x keys0) ->
+            NoDup (fold_left (fun acc l => fst (emit 0 acc l)) attempts acc) /\
+            (forall x, In x (fold_left (fun acc l => fst (emit 0 acc l)) attempts acc) -> In x keys0) /\
+            (forall x, In x acc -> In x (fold_left (fun acc l => fst (emit 0 acc l)) attempts acc)) /\
+            (forall l, In l attempts -> forall x, In x l -> In x (fold_left (fun acc l => fst (emit 0 acc l)) attempts acc))).
+  { induction attempts as [|l r IH]; intros acc Hn Hsub Hk; cbn [fold_left].
+    - repeat split; auto. intros l [].
+    - destruct (emit_spec 0 l acc Hn) as (A & B & C & D).
+      assert (Hab : snd (emit 0 acc l) = false).
+      { clear. revert acc. induction l as [|y t IHl]; intros acc; cbn [emit snd]; [reflexivity|].
+        destruct (memN y acc); [apply IHl|]. cbn [Nat.eqb negb andb]. apply IHl. }
+      assert (Hsub' : forall x, In x (fst (emit 0 acc l)) -> In x keys0).
+      { intros x Hx. destruct (B x Hx) as [H|H]; [apply Hsub; exact H | apply (Hk l (or_introl eq_refl)); exact H]. }
+      destruct (IH (fst (emit 0 acc l)) A Hsub' (fun l' Hl' => Hk l' (or_intror Hl'))) as (P1 & P2 & P3 & P4).
+      split; [exact P1|]. split; [exact P2|]. split; [intros x Hx; apply P3, C; exact Hx|].
+      intros l' [Hl'|Hl'] x Hx; [subst l'; apply P3, (D Hab); exact Hx | apply (P4 l' Hl'); exact Hx]. }
+  intros attempts Hk. destruct (Hgen attempts [] (NoDup_nil N) (fun x H => match H with end) Hk) as (P1 & P2 & _ & P4).
+  split; [exact P1|]. split; [exact P2 | exact P4].
+Qed.
+
+(* the orders the mock uses really differ between attempts *)
+Example c35_nonvacuous_order :
+  lorder 0 [1; 2; 3; 4]%N = [1; 2; 3; 4]%N /\ lorder 1 [1; 2; 3; 4]%N = [1; 4; 3; 2]%N /\
+  lorder 2 [1; 2; 3; 4]%N = [3; 4; 1; 2]%N /\
+  (* first attempt (1 directive left) lists 1,4 then fails; the retry (0 left) lists 1,2,3,4: each name once *)
+  o_names (snd (run_op (mkcfg false false) (mkst [(1, []); (2, []); (3, []); (4, [])]%N [FPartial 2 ETrans; FNone] [] false)
+                       (mkreq (OList 0) 3 false))) = [1; 4; 2; 3]%N.
 Proof. vm_compute. repeat split. Qed.
